@@ -155,6 +155,61 @@ func init() {
 			x.defNat("writeNewlineCalls", uint64(nl))
 		}
 
+		// ---- Logger.Log: order of pool.Get / render / Lock / Write / Unlock / pool.Put; the logger's state ----
+		if fd := x.funcDecl("logger", "logger", "Log"); fd != nil {
+			var calls []string
+			writeArg := ""
+			deferred := false
+			ast.Inspect(fd.Body, func(n ast.Node) bool {
+				switch v := n.(type) {
+				case *ast.DeferStmt, *ast.GoStmt:
+					deferred = true
+				case *ast.CallExpr:
+					calls = append(calls, x.src(v.Fun))
+					if x.src(v.Fun) == "l.w.Write" && len(v.Args) == 1 {
+						writeArg = x.src(v.Args[0])
+					}
+				}
+				return true
+			})
+			x.defStrList("logCalls", calls)
+			x.defStr("logWriteArg", writeArg)
+			x.defBool("logUsesDeferOrGo", deferred)
+		}
+		{
+			var fieldsOf []string
+			for _, f := range x.files("logger") {
+				ast.Inspect(f, func(n ast.Node) bool {
+					ts, ok := n.(*ast.TypeSpec)
+					if !ok || ts.Name.Name != "logger" {
+						return true
+					}
+					if st, ok := ts.Type.(*ast.StructType); ok {
+						for _, fl := range st.Fields.List {
+							for _, nm := range fl.Names {
+								fieldsOf = append(fieldsOf, nm.Name+" "+x.src(fl.Type))
+							}
+							if len(fl.Names) == 0 {
+								fieldsOf = append(fieldsOf, x.src(fl.Type))
+							}
+						}
+					}
+					return true
+				})
+			}
+			if len(fieldsOf) == 0 {
+				x.fail("logger: struct type logger not found")
+			}
+			x.defStrList("loggerStructFields", fieldsOf)
+			if e := x.valueSpec("logger", "pool"); e != nil {
+				t := x.src(e)
+				if cl, ok := e.(*ast.CompositeLit); ok {
+					t = x.src(cl.Type)
+				}
+				x.defStr("poolType", t)
+			}
+		}
+
 		// ---- the call site in ServeHTTP ----
 		site := map[string]string{}
 		for _, f := range x.files("proxy") {
